@@ -37,6 +37,9 @@ func init() {
 			{Name: "random", N: constN(6000, 150000), Gen: c15GenRandom, Eval: c15EvalE2E},
 			{Name: "annotation", Stream: c15StreamAnnotation, Eval: c15EvalAnnotation},
 			{Name: "what-follows", N: func(string) int { return c15FollowCount() }, Gen: c15GenFollow, Eval: c15EvalFollow},
+			{Name: "same-place-other-file", N: constN(600, 20000), Gen: func(r *xrand.Rand, idx int, tier string) *fw.Case {
+				return &fw.Case{Docs: []run.Doc{{}}}
+			}, Eval: c15EvalFiles},
 		},
 		Floors: map[string]int64{"direct_checked": 20000, "e2e_pairs_checked": 3000, "annotations_checked": 2000},
 	})
@@ -257,7 +260,7 @@ func c15HostDocF(host, body string, follower int) string {
 	case "rpc":
 		return "JSIGHT 0.3\nURL /r\n  Protocol json-rpc-2.0\n  Method m\n    Description\n" + body + f + tail
 	default:
-		return "JSIGHT 0.3\nTAG @t\n  Description\n" + body + f + tail
+		return "JSIGHT 0.3\nTAG @t_a\n  Description\n" + body + f + tail + "TAG @t__a\n"
 	}
 }
 
@@ -276,7 +279,7 @@ func c15HostField(host string, root *jsonx.Node) (string, bool) {
 		n := in.Vals[0].Get("description")
 		return n.S(), n != nil
 	default:
-		n := root.Get("tags").Get("@t").Get("description")
+		n := root.Get("tags").Get("@t_a").Get("description")
 		return n.S(), n != nil
 	}
 }
@@ -442,7 +445,7 @@ func c15AnnDoc(host, ann string) string {
 	case "enum":
 		return "JSIGHT 0.3\nENUM @e " + ann + "\n[1]\n"
 	default:
-		return "JSIGHT 0.3\nTAG @t " + ann + "\n"
+		return "JSIGHT 0.3\nTAG @t_a " + ann + "\nTAG @t__a\n"
 	}
 }
 
@@ -476,7 +479,7 @@ func c15AnnField(host string, root *jsonx.Node) (string, bool) {
 		n := root.Get("userEnums").Get("@e").Get("annotation")
 		return n.S(), n != nil
 	default:
-		n := root.Get("tags").Get("@t").Get("title")
+		n := root.Get("tags").Get("@t_a").Get("title")
 		return n.S(), n != nil
 	}
 }
@@ -601,27 +604,7 @@ func c15EvalFollow(t *fw.T, c *fw.Case) {
 	f := c15FollowersOf(host)[c.Ints["f"]]
 	text := c15FollowTexts[c.Ints["t"]]
 	nl := []string{"\n", "\r\n", "\r"}[c.Ints["nl"]]
-	mk := func(body string) run.Doc {
-		var head string
-		switch host {
-		case "info":
-			head = "JSIGHT 0.3\nINFO\n  Title \"t\"\n  Description\n"
-		case "http":
-			head = "JSIGHT 0.3\nGET /a/{id}\n  Description\n"
-		case "rpc":
-			head = "JSIGHT 0.3\nURL /r\n  Protocol json-rpc-2.0\n  Method m\n    Description\n"
-		default:
-			head = "JSIGHT 0.3\nTAG @t\n  Description\n"
-		}
-		doc := head + body + "\n" + f.text + f.tail
-		files := map[string][]byte{"root.jst": []byte(strings.ReplaceAll(doc, "\n", nl))}
-		for k, v := range f.file {
-			files[k] = []byte(strings.ReplaceAll(v, "\n", nl))
-		}
-		d := run.Doc{Files: files, Root: "root.jst"}
-		d.FixedSeed = true
-		return d
-	}
+	mk := func(body string) run.Doc { return c15FollowDoc(host, f, body, nl) }
 	db, dp := mk(text), mk("(\n"+text+"\n)")
 	c.Docs = []run.Doc{db, dp}
 	ob, op := t.Exec(db), t.Exec(dp)
@@ -653,4 +636,118 @@ func c15EvalFollow(t *fw.T, c *fw.Case) {
 		return
 	}
 	t.Distinct("follow " + sig)
+}
+
+
+// c15FollowDoc builds the project: a description with the given body in the host, followed by f.
+func c15FollowDoc(host string, f c15Follow, body, nl string) run.Doc {
+	var head string
+	switch host {
+	case "info":
+		head = "JSIGHT 0.3\nINFO\n  Title \"t\"\n  Description\n"
+	case "http":
+		head = "JSIGHT 0.3\nGET /a/{id}\n  Description\n"
+	case "rpc":
+		head = "JSIGHT 0.3\nURL /r\n  Protocol json-rpc-2.0\n  Method m\n    Description\n"
+	default:
+		head = "JSIGHT 0.3\nTAG @t__a\nTAG @t_a\n  Description\n"
+	}
+	doc := head + body + "\n" + f.text + f.tail
+	files := map[string][]byte{"root.jst": []byte(strings.ReplaceAll(doc, "\n", nl))}
+	for k, v := range f.file {
+		files[k] = []byte(strings.ReplaceAll(v, "\n", nl))
+	}
+	d := run.Doc{Files: files, Root: "root.jst"}
+	d.FixedSeed = true
+	return d
+}
+
+
+// c15EvalFiles: several included files made from one template - the descriptions stand at the same byte offsets of
+// different files and have different texts (one may be blank): every host must get its own text.
+func c15EvalFiles(t *fw.T, c *fw.Case) {
+	r := xrand.Derive(t.Seed, c.Index, "C15", "files")
+	k := r.Range(2, 4)
+	words := []string{"cats", "dogs", "mice", "owls", "bats"}
+	host := r.Intn(3)
+	paren := r.Bool()
+	blankAt := -1
+	if r.Chance(1, 5) {
+		blankAt = r.Intn(k)
+	}
+	files := map[string][]byte{}
+	var root strings.Builder
+	root.WriteString("JSIGHT 0.3\n")
+	var want []string
+	for i := 0; i < k; i++ {
+		w := words[(c.Index+i)%len(words)]
+		text := "All the " + w + "."
+		if i == blankAt {
+			text = "             " // same length, blank
+		}
+		body := "    " + text + "\n"
+		if paren {
+			body = "  (\n" + body + "  )\n"
+		}
+		var f string
+		switch host {
+		case 0:
+			f = fmt.Sprintf("GET /h%d\n  Description\n%s  200 any\n", i, body)
+		case 1:
+			f = fmt.Sprintf("TAG @g%d\n  Description\n%s", i, body)
+		default:
+			f = fmt.Sprintf("URL /r%d\n  Protocol json-rpc-2.0\n  Method m\n    Description\n  %s    Params\n    {}\n", i, strings.ReplaceAll(body, "\n  ", "\n    "))
+		}
+		name := fmt.Sprintf("part%d.jst", i)
+		files[name] = []byte(f)
+		root.WriteString("INCLUDE " + name + "\n")
+		want = append(want, text)
+	}
+	files["root.jst"] = []byte(root.String())
+	d := run.Doc{Files: files, Root: "root.jst"}
+	c.Docs = []run.Doc{d}
+	o := t.Exec(d)
+	t.Count("file_projects_checked")
+	if blankAt >= 0 {
+		if o.Outcome == run.Accepted {
+			t.Violation("blank-accepted:in-included-file", fmt.Sprintf("the description in part%d.jst is blank, the project is accepted; files %v", blankAt, filesText(files)))
+		}
+		return
+	}
+	if o.Outcome != run.Accepted {
+		t.Violation("nonblank-rejected:in-included-file:"+run.MsgTemplate(o.Msg), fmt.Sprintf("%s; files %v", describe(o), filesText(files)))
+		return
+	}
+	doc, err := jsonx.Parse(o.JSON)
+	if err != nil {
+		return
+	}
+	for i := 0; i < k; i++ {
+		var n *jsonx.Node
+		switch host {
+		case 0:
+			n = doc.Root.Get("interactions").Get(fmt.Sprintf("http GET /h%d", i)).Get("description")
+		case 1:
+			n = doc.Root.Get("tags").Get(fmt.Sprintf("@g%d", i)).Get("description")
+		default:
+			n = doc.Root.Get("interactions").Get(fmt.Sprintf("json-rpc-2.0 m /r%d", i)).Get("description")
+		}
+		if n == nil || n.S() != want[i] {
+			got := "<missing>"
+			if n != nil {
+				got = n.S()
+			}
+			t.Violation("description-of-another-file", fmt.Sprintf("the description written in part%d.jst is %q, the catalog has %q; files %v", i, want[i], got, filesText(files)))
+			return
+		}
+	}
+	t.Distinct(fmt.Sprintf("files host%d k%d paren%v", host, k, paren))
+}
+
+func filesText(files map[string][]byte) map[string]string {
+	out := map[string]string{}
+	for k, v := range files {
+		out[k] = string(v)
+	}
+	return out
 }
